@@ -110,32 +110,38 @@ def border_job(job):
             tb = doc.sheets[0].tables[0]
             trace["init"] = [v] * n
             continue
-        if v == "reopen":
-            doc = Document(path)
-            tb = doc.sheets[0].tables[0]
-        elif v == "touch-write":
-            # Borders.tla Touch: the cells on both sides of the line are written to (Table.write replaces the cell objects)
-            from numbers_parser import MergedCell
-            for i in range(n):
-                for (r, c) in ([(line, i), (line - 1, i)] if orient == "h" else [(i, line), (i, line - 1)]):
-                    if 0 <= r < tb.num_rows and 0 <= c < tb.num_cols and not isinstance(tb.cell(r, c), MergedCell):
-                        tb.write(r, c, "w%d" % nmerge)
-        elif v in ("touch-merge-over", "touch-merge-outer"):
-            # Borders.tla MergeOver / MergeOuter: positions o..o+len-1 of the line; rows (columns) line-1..line straddle it,
-            # rows (columns) line..line+1 have it as their outer edge
-            from ..wb import colname
-            a, b = (line - 1, line) if v == "touch-merge-over" else (line, line + 1)
-            if orient == "h":
-                tb.merge_cells("%s%d:%s%d" % (colname(o - 1), a + 1, colname(o + ln - 2), b + 1))
+        try:
+            if v == "reopen":
+                doc = Document(path)
+                tb = doc.sheets[0].tables[0]
+            elif v == "touch-write":
+                # Borders.tla Touch: the cells on both sides of the line are written to (Table.write replaces the cell objects)
+                from numbers_parser import MergedCell
+                for i in range(n):
+                    for (r, c) in ([(line, i), (line - 1, i)] if orient == "h" else [(i, line), (i, line - 1)]):
+                        if 0 <= r < tb.num_rows and 0 <= c < tb.num_cols and not isinstance(tb.cell(r, c), MergedCell):
+                            tb.write(r, c, "w%d" % nmerge)
+            elif v in ("touch-merge-over", "touch-merge-outer"):
+                # Borders.tla MergeOver / MergeOuter: positions o..o+len-1 of the line; rows (columns) line-1..line straddle it,
+                # rows (columns) line..line+1 have it as their outer edge
+                from ..wb import colname
+                a, b = (line - 1, line) if v == "touch-merge-over" else (line, line + 1)
+                if orient == "h":
+                    tb.merge_cells("%s%d:%s%d" % (colname(o - 1), a + 1, colname(o + ln - 2), b + 1))
+                else:
+                    tb.merge_cells("%s%d:%s%d" % (colname(a), o, colname(b), o + ln - 1))
+            elif v == "touch-merge":
+                # Borders.tla Touch: a rectangle elsewhere in the table is merged (merge_cells rebuilds every cell's border object)
+                from ..wb import colname
+                tb.merge_cells("%s%d:%s%d" % (colname(2 * nmerge), n + 2, colname(2 * nmerge + 1), n + 3))
+                nmerge += 1
             else:
-                tb.merge_cells("%s%d:%s%d" % (colname(a), o, colname(b), o + ln - 1))
-        elif v == "touch-merge":
-            # Borders.tla Touch: a rectangle elsewhere in the table is merged (merge_cells rebuilds every cell's border object)
-            from ..wb import colname
-            tb.merge_cells("%s%d:%s%d" % (colname(2 * nmerge), n + 2, colname(2 * nmerge + 1), n + 3))
-            nmerge += 1
-        else:
-            draw(o, ln, v, line >= 1 and rng.random() < 0.4)
+                draw(o, ln, v, line >= 1 and rng.random() < 0.4)
+        except Exception as ex:  # noqa: BLE001
+            # a call of the history that raises is an observation like any other: every view of this event shows the exception
+            bad = ["EXC:" + type(ex).__name__] * n
+            trace["ev"].append({"o": o, "len": ln, "v": v, "oa": bad, "ob": bad, "ra": bad, "rb": bad})
+            break
         e = {"o": o, "len": ln, "v": v}
         e["oa"], e["ob"] = views(tb)
         try:
